@@ -158,11 +158,28 @@ def _gen_request(draws, spec, bundle, idx, profile, want_mut, tier="quick",
     req.gen = gen
     if req.variant == "validation":
         where = op.sel
-        where.insert(rs.below(len(where) + 1, "bad_at"), _bad_field())
+        how = rs.below(4, "invalid_how")
+        if how == 0:
+            bad = _bad_field()
+        else:
+            # a spread of a fragment that does not exist -- named after
+            # nothing, after the operation itself, or after the other
+            # operation of the document
+            from .workload import Spread
+            nm = ("Nope", "Main", "Other")[how - 1]
+            if nm == "Main":
+                op.name = "Main"
+            bad = Spread(nm)
+        where.insert(rs.below(len(where) + 1, "bad_at"), bad)
     text = render(op, rs.below(4, "layout"), bool(rs.below(2, "frags_first")))
     req.op = op
     req.variables = dict(op.variables)
     req.operation_name = op.operation_name
+    if req.variant in ("truncate", "flip") and rs.chance(1, 2, "uescape"):
+        # the same characters written as \uXXXX escapes (surrogate pairs for
+        # astral ones): what a JSON-minded client sends.  Only for requests
+        # whose outcome class is py-gql's own call.
+        text = _u_escape(_inject_astral(text, rs))
     if req.variant == "syntax":
         text = (text.rstrip()[:-1], text + " }", text + ' "', "{ ")[
             rs.below(4, "syntax_how")]
@@ -171,6 +188,10 @@ def _gen_request(draws, spec, bundle, idx, profile, want_mut, tier="quick",
         # in-flight lexer state (escape, string, number, spread, variable...)
         hot = [i + 1 for i, ch in enumerate(text) if ch in '\\"$@.:([{#-eu']
         hotter = [i + 1 for i, ch in enumerate(text) if ch in '\\"']
+        # ... and every position inside a \uXXXX escape
+        for i in range(len(text) - 1):
+            if text[i] == "\\" and text[i + 1] == "u":
+                hotter.extend(range(i + 2, min(len(text), i + 7)))
         if hotter and rs.chance(1, 4, "cut_hotter"):
             # inside / at the edge of string literals and escapes
             text = text[: hotter[rs.below(len(hotter), "cut_at")]]
@@ -180,6 +201,11 @@ def _gen_request(draws, spec, bundle, idx, profile, want_mut, tier="quick",
             text = text[: rs.below(len(text) + 1, "cut")]
     elif req.variant == "flip":
         pos = rs.below(max(1, len(text)), "flip_at")
+        inside = [j for i in range(len(text) - 1)
+                  if text[i] == "\\" and text[i + 1] == "u"
+                  for j in range(i + 1, min(len(text), i + 6))]
+        if inside and rs.chance(1, 2, "flip_in_escape"):
+            pos = inside[rs.below(len(inside), "flip_escape_at")]
         ch = ('"', "\\", "{", "}", "$", "@", "é", "#", "!", "0")[
             rs.below(10, "flip_ch")]
         text = text[:pos] + ch + text[pos + 1:]
@@ -331,6 +357,70 @@ def _finish_request(draws, spec, req, idx, profile, rs, tier):
         for a in ("ninstr", "mws", "tracer", "skew"):
             setattr(req.l2, a, getattr(req, a))
     return req
+
+
+def _inject_astral(text, rs):
+    """Put an astral character into one ordinary string literal of the text
+    (corrupted-request variants only: nothing is expected of the data)."""
+    opens = []
+    in_str = False
+    i = 0
+    while i < len(text):
+        if text.startswith('"""', i):
+            j = text.find('"""', i + 3)
+            i = len(text) if j < 0 else j + 3
+            continue
+        ch = text[i]
+        if in_str and ch == "\\":
+            i += 2
+            continue
+        if ch == '"':
+            if not in_str:
+                opens.append(i + 1)
+            in_str = not in_str
+        elif ch == "\n":
+            in_str = False
+        i += 1
+    if not opens or not rs.chance(1, 2, "inject_astral"):
+        return text
+    at = opens[rs.below(len(opens), "inject_at")]
+    return text[:at] + "\U0001F388" + text[at:]
+
+
+def _u_escape(text):
+    out = []
+    in_str = False
+    i = 0
+    while i < len(text):
+        ch = text[i]
+        if text.startswith('"""', i):
+            # block strings do not process escapes: copied verbatim
+            j = text.find('"""', i + 3)
+            while j > 0 and text[j - 1] == "\\":
+                j = text.find('"""', j + 3)
+            j = len(text) if j < 0 else j + 3
+            out.append(text[i:j])
+            i = j
+            continue
+        if ch == '"':
+            in_str = not in_str
+        elif in_str and ch == "\\":
+            out.append(text[i:i + 2])
+            i += 2
+            continue
+        elif in_str and ord(ch) > 127:
+            cp = ord(ch)
+            if cp > 0xFFFF:
+                cp -= 0x10000
+                out.append("\\u%04X\\u%04X" % (0xD800 + (cp >> 10),
+                                               0xDC00 + (cp & 0x3FF)))
+            else:
+                out.append("\\u%04X" % cp)
+            i += 1
+            continue
+        out.append(ch)
+        i += 1
+    return "".join(out)
 
 
 def _bad_field():
